@@ -477,6 +477,7 @@ type resource struct {
 	failFirst  int // answer 503 this many times first
 	cfMitigate bool
 	truncate   bool // announce the full length, send half of the body, then drop the connection
+	drop       bool // accept the connection and close it without answering (every attempt fails at transport level)
 	links      []string
 }
 
@@ -536,6 +537,8 @@ func (s *e2eSite) lookup(url string) resource {
 		res.failFirst = 1 + r.Intn(2)
 	case (c == 8 || ((s.mode == "hosts" || s.mode == "bodies") && c >= 20)) && !isSeed:
 		res.truncate = true // the body is cut mid-stream: ProcessBody fails, this URL fails for good
+	case c == 9 && (s.mode == "adversarial" || r.Chance(40)):
+		return resource{drop: true}
 	case c == 7:
 		return resource{status: 403, ctype: "text/html", body: []byte("<html>challenge</html>"), cfMitigate: true}
 	}
@@ -613,6 +616,16 @@ func (s *e2eSite) ServeHTTP(w http.ResponseWriter, req *http.Request) {
 	s.attempts[url]++
 	att := s.attempts[url]
 	s.mu.Unlock()
+	if res.drop {
+		evlog.write("origin", url, "0", "-", "0", fmt.Sprint(att))
+		lastEvent.Store(time.Now().UnixNano())
+		if hj, ok := w.(http.Hijacker); ok {
+			if conn, _, err := hj.Hijack(); err == nil {
+				conn.Close()
+			}
+		}
+		return
+	}
 	status, body := res.status, res.body
 	if res.failFirst >= att {
 		status, body = 503, []byte("try again")
